@@ -91,11 +91,14 @@ def main():
     any_mismatch = []
     all_digests = {}
     foreign = {}
+    current_stream = [None]
     unreproduced = []   # failures of a whole-stream run that three solo re-runs of the same script did not show again
 
     def reproduces(driver, case, pred, model_driver=None):
         """A failure is reported only if the script shows it again when it is run on its own (every replay has to): the real
         sockets, timers and the kernel's scheduling make a few observations depend on the machine's load."""
+        if current_stream[0] in getattr(mod, "UNGATED_STREAMS", ()):
+            return True     # inherently probabilistic observations (races between goroutines): one sighting counts
         for k in range(3):
             r = vlib.run_pipeline(driver, [case], bs, tag="repro", model_driver=model_driver)
             if getattr(r, "crash", None) or pred(r):
@@ -106,6 +109,7 @@ def main():
         nonlocal evaluations, n_cases, distinct, nontrivial, exit_code
         if not cases:
             return
+        current_stream[0] = name
         res = vlib.run_pipeline(driver, cases, bs, tag=name, model_driver=model_driver)
         if getattr(res, "crash", None):
             cr = res.crash
